@@ -158,6 +158,46 @@ theorem writeToCsv_collection_roundtrip (f : CsvFmt) (geo : Bool) (pf : List Tok
       | zero => exact hr k hk
       | succ j => exact hrs j (by simpa using h1) (by simpa using h2) k hk
 
+/-- **default arguments** `writeToFile_default_roundtrip`: `TrackWriter.writeToFile(track, path)` — every other argument left at its
+default, the branch that builds its own format (E in column 0, N in column 1, separator `,`, no header) — writes a file that the
+matching call `readFromCsv(path, 0, 1)` reads back as the same observations (planimetric coordinates; no U and no time column
+is written: third coordinate 0, `ObsTime()`). -/
+theorem writeToFile_default_roundtrip (geo : Bool) (pf : List Tok) (rows : List Row) (srid : Str)
+    (hrows : ∀ r ∈ rows, RowOK ⟨0, 1, -1, -1, ','⟩ geo pf r) (hsrid : '\n' ∉ srid) :
+    ∃ text, writeToFileDefault geo pf rows srid = .ok text ∧
+      readCsv ⟨0, 1, -1, -1, ','⟩ pf 0 text = .ok (rows.map (expRow ⟨0, 1, -1, -1, ','⟩ geo pf)) := by
+  obtain ⟨text, hw, hr⟩ := writeToCsv_roundtrip ⟨0, 1, -1, -1, ','⟩ geo pf 0 rows srid (by decide) (by decide) (by decide)
+    (fun h => absurd rfl h) hrows hsrid
+  exact ⟨text, hw, hr 0 (by simp)⟩
+
+/-- **directory read-back** `readFromCsv_dir_roundtrip`: after `writeToCsv(collection, dir, format)`, `readFromCsv(dir, …)` (the
+directory branch of `readFromFile`) — whatever the order in which `os.listdir` delivers the files (`listing`: any sequence of
+written files, each paired with the track it was written from) — returns those tracks in listing order, each with all its
+observations in order; a file whose track is empty is skipped. -/
+theorem readFromCsv_dir_roundtrip (f : CsvFmt) (geo : Bool) (pf : List Tok) (h : Nat) (tracks : List (List Row)) (srid : Str)
+    (hv : ValidIds f) (hsep : numChar f.sep = false) (hnl : f.sep ≠ '\n') (htime : f.idT ≠ -1 → TimeOK pf f.sep)
+    (hrows : ∀ rows ∈ tracks, ∀ r ∈ rows, RowOK f geo pf r) (hsrid : '\n' ∉ srid) :
+    ∃ texts, writeToCsvColl f geo pf h tracks srid = .ok texts ∧ texts.length = tracks.length ∧
+      ∀ listing : List (Str × List Row), (∀ x ∈ listing, x ∈ texts.zip tracks) → ∀ hr, hr ≤ (if h = 0 then 0 else 3) →
+        readCsvDir f pf hr (listing.map (·.1))
+          = .ok ((listing.map (fun x => x.2.map (expRow f geo pf))).filter (fun t => !t.isEmpty)) := by
+  obtain ⟨texts, hw, hlen, hrd⟩ := writeToCsv_collection_roundtrip f geo pf h tracks srid hv hsep hnl htime hrows hsrid
+  refine ⟨texts, hw, hlen, fun listing hl hr hle => ?_⟩
+  unfold readCsvDir
+  have hm : (listing.map (·.1)).mapM (readCsv f pf hr) = .ok (listing.map (fun x => x.2.map (expRow f geo pf))) := by
+    rw [List.mapM_map]
+    apply mapM_ok
+    intro x hx
+    obtain ⟨i, hi, hxi⟩ := List.mem_iff_getElem.1 (hl x hx)
+    rw [List.getElem_zip] at hxi
+    have h1 : i < texts.length := by simp at hi; omega
+    have h2 : i < tracks.length := by simp at hi; omega
+    have := hrd i h1 h2 hr hle
+    rw [← hxi]
+    exact this
+  rw [hm]
+  rfl
+
 /-- **T2 (feature columns)** `csv_read_all_roundtrip`: a track written by `writeToFile` with its header block (`h > 0`)
 and the feature columns `af_names = names` — values of any kind (`AFVal`: int, float on a decimal lattice, str, nan, ±inf)
 whose text is one field of the line (`AFOK`), names that are good fields, distinct and not refused by the track (`NameOK`),
@@ -247,6 +287,19 @@ theorem gpx_file_roundtrip (rf : List Tok) (hrf : ReadsIso rf) (geo : Bool) (nam
     (hname : '<' ∉ name ∧ '\n' ∉ name) (rows : List GRow) (hrows : ∀ r ∈ rows, Fits r.t) :
     readGpx rf geo (gpxBody name rows) = .ok [rows.map (expG rf geo)] :=
   TV.TextIO.gpx_file_roundtrip rf hrf geo name hname rows hrows
+
+/-- **GPX collection** `gpx_collection_roundtrip`: `writeToGpx(collection, path)` with `oneFile=True` (the default) writes one
+`<trk>` element per track, in the order of the collection; the file is read back as the same number of tracks in the same
+order, each with the same points in order (track names free of `<` and newline; a track without points comes back empty). -/
+theorem gpx_collection_roundtrip (rf : List Tok) (hrf : ReadsIso rf) (geo : Bool) (tracks : List (Str × List GRow))
+    (hok : ∀ t ∈ tracks, ('<' ∉ t.1 ∧ '\n' ∉ t.1) ∧ ∀ r ∈ t.2, Fits r.t) :
+    readGpx rf geo (gpxBodyColl tracks) = .ok (tracks.map (fun t => t.2.map (expG rf geo))) :=
+  TV.TextIO.gpx_collection_roundtrip rf hrf geo tracks hok
+
+/-- two tracks in one file, the second one empty -/
+example : (readGpx isoFmt true (gpxBodyColl [("a".toList, [⟨⟨false, 100000000⟩, ⟨true, 200000000⟩, ⟨false, 0⟩, ⟨⟨2020, 1, 2, 3, 4, 5⟩, 0⟩⟩]),
+      ("b".toList, [])])).toOption
+    = some [[⟨(100000000, 8), (-200000000, 8), (0, 8), ⟨⟨2020, 1, 2, 3, 4, 5⟩, 0⟩⟩], []] := by decide +kernel
 
 /-- **GPX with extensions** `gpx_af_file_roundtrip`: the text `writeToGpx(track, path, af=True)` writes — every point followed
 by an `<extensions>` block with one line `<name>str(value)</name>` per analytical feature — is read by the `trk` scanner as the
